@@ -261,6 +261,20 @@ def correspondence(ctx, quick):
             continue
         vm(f'(showqq (qtg_min {umin} {qlist(X)}, qtg_max {umax} {qlist(X)}), showqq (qtg_ab {umin} {umax} {qlist(X)} {q(loc)} {q(sc)}))',
            ('truncated', spec, m, e))
+        bd = e['kwargs'].get('bounds')
+        if not (isinstance(bd, (list, tuple)) and len(bd) == 2 and all(isinstance(t, (list, tuple)) and len(t) == 2 for t in bd)):
+            bad.append(f'optimiser bounds have an unexpected shape: {bd!r}')
+        else:
+            for (pa, pb), val, nm in ((('fst', 'fst'), bd[0][0], 'loc-lower'), (('snd', 'fst'), bd[0][1], 'loc-upper'), (('fst', 'snd'), bd[1][0], 'scale-lower'),
+                                      (('snd', 'snd'), bd[1][1], 'scale-upper')):
+                val = float(val)
+                goals.append({'term': f'{pa} ({pb} (gen_tg_box {frac(float(m.min))} {frac(float(m.max))}))', 'y': val, 'tol': 1e-11 * (1 + abs(val)), 'unfolds': ['gen_tg_box'],
+                              'tactic': 'cbv [fst snd]; interval with (i_prec 90)',
+                              'meta': {'what': f'truncated-box-{nm}', 'spec': spec, 'impl': val,
+                                       'body': 'import copulas.univariate.truncated_gaussian as tg\nrec = []\norig = tg.fmin_slsqp\n'
+                                               'tg.fmin_slsqp = lambda f, x0, **k: (rec.append(k.get("bounds")), orig(f, x0, **k))[1]\nm = univ.build(spec)\n'
+                                               'print(rec[0], m.min, m.max)\nb = rec[0]\n'
+                                               'assert b[0][0] == m.min and b[0][1] == m.max and b[1][0] == 0 and abs(b[1][1] - (m.max - m.min) ** 2) <= 1e-11 * (1 + b[1][1])\n'}})
         x0 = [float(v) for v in e['args'][1]] if len(e['args']) == 2 else [float('nan')] * 2
         for i, nm in enumerate(('fst', 'snd')):
             goals.append({'term': f'{nm} (gen_tg_start {rlist(X)})', 'y': x0[i], 'tol': 1e-9 * abs(x0[i]) + 1e-300, 'unfolds': ['gen_tg_start'], 'tactic': STD_CBV,
@@ -408,8 +422,7 @@ def judge(ctx, meta, o):
         e = aux
         mn, mx, a, b = fracs(o)
         bd = e['kwargs'].get('bounds')
-        ok_box = (isinstance(bd, (list, tuple)) and len(bd) == 2 and close(bd[0][0], mn) and close(bd[0][1], mx) and float(bd[1][0]) == 0.0
-                  and close(bd[1][1], (mx - mn) ** 2, 1e-11))
+        ok_box = True       # the optimiser box is certified separately by Interval against the generated gen_tg_box
         ok_mm = close(m.min, mn) and close(m.max, mx)
         loc, sc = (float(v) for v in e['ret'])
         p = m._params
@@ -417,8 +430,8 @@ def judge(ctx, meta, o):
         ctx.obligation('corr:truncated-bounds', ok_mm and ok_box, 'correspondence', f'min/max {m.min!r},{m.max!r} bounds {bd} model {float(mn)!r},{float(mx)!r}')
         ctx.obligation('corr:truncated-params', ok_par, 'correspondence', f'stored {dict(p)} model a={float(a)!r} b={float(b)!r} for optimum ({loc!r},{sc!r})')
         if not (ok_mm and ok_box):
-            viol(ctx, 'corr:truncated-bounds', f'TruncatedGaussian({spec["kwargs"]}): min/max = ({m.min!r}, {m.max!r}), optimiser bounds {bd}; generated model: '
-                 f'[{float(mn)!r}, {float(mx)!r}] and scale in [0, {float((mx - mn) ** 2)!r}]', spec, {},
+            viol(ctx, 'corr:truncated-bounds', f'TruncatedGaussian({spec["kwargs"]}): min/max = ({m.min!r}, {m.max!r}); generated model: '
+                 f'[{float(mn)!r}, {float(mx)!r}]', spec, {},
                  f'print(m.min, m.max)\nassert abs(m.min - {float(mn)!r}) <= 1e-12 * (1 + abs(m.min)) and abs(m.max - {float(mx)!r}) <= 1e-12 * (1 + abs(m.max))\n')
         if not ok_par:
             viol(ctx, 'corr:truncated-params', f'TruncatedGaussian({spec["kwargs"]}) stores {dict(p)}; generated model for the optimum ({loc!r}, {sc!r}): '
